@@ -171,6 +171,12 @@ class Lowering:
                     return T('tmpl', 'iter', args=[base])
                 if m in ('reference', 'const_reference'):
                     return T('ref', sub=elem)
+            if base.kind == 'tmpl' and base.name == 'iter' and m in ('pointer', 'reference', 'value_type'):
+                c0 = base.args[0]
+                if c0.kind == 'tmpl' and c0.name in ('std::unordered_map', 'std::map'):
+                    ent = T('rec', self.ctype(c0) + '_ent')
+                    self.records[ent.name] = ent.name
+                    return T('ptr', sub=ent) if m == 'pointer' else (T('ref', sub=ent) if m == 'reference' else ent)
             if base.kind == 'tmpl' and base.name == 'std::chrono::time_point' and m == 'duration':
                 return base.args[1] if len(base.args) > 1 else self.resolve(parse_type('std::chrono::nanoseconds'))
             if base.kind == 'tmpl' and base.name == 'std::chrono::duration' and m == 'rep':
